@@ -1,9 +1,182 @@
 import Driver.Util
+import Mtv.Tlgen.Parser
+import Mtv.Tlgen.Classify
+import Mtv.Tlgen.Emit
 namespace Driver.C14
-open Mtv Driver
+open Mtv Mtv.Tlgen Driver
 
-/-- operations of property C14; not built yet -/
+/-! ### the text coding of the line protocol
+
+A rune in `0x21..0x7d` other than `(` `)` stands for itself, every other rune is `~<hex code point>~`;
+the empty string is `~~`. Used for schema texts (op tokens) and for every string inside a dump. -/
+
+def hexNat (n : Nat) : String := String.ofList (Nat.toDigits 16 n)
+
+def escChar (c : Char) : String :=
+  if 0x21 ≤ c.toNat ∧ c.toNat ≤ 0x7d ∧ c ≠ '(' ∧ c ≠ ')' then String.singleton c
+  else "~" ++ hexNat c.toNat ++ "~"
+
+def esc (s : Str) : String :=
+  if s.isEmpty then "~~" else String.join (s.map escChar)
+
+def hexValue (s : Str) : Option Nat :=
+  s.foldl (fun acc c => match acc, hexVal? c with
+    | some a, some d => some (a * 16 + d)
+    | _, _ => none) (some 0)
+
+/-- inverse of `esc`; `none` on a malformed token. `h`: the hex digits (reversed) of an open `~…~`. -/
+def unescGo : Option Str → Str → Str → Option Str
+  | none, acc, [] => some acc.reverse
+  | some _, _, [] => none
+  | none, acc, c :: r => if c = '~' then unescGo (some []) acc r else unescGo none (c :: acc) r
+  | some h, acc, c :: r =>
+    if c = '~' then
+      if h.isEmpty then unescGo none acc r else
+      match hexValue h.reverse with
+      | some n => if n < 0x110000 ∧ ¬ (0xd800 ≤ n ∧ n ≤ 0xdfff) then unescGo none (Char.ofNat n :: acc) r else none
+      | none => none
+    else unescGo (some (c :: h)) acc r
+
+def unesc (s : String) : Option Str := unescGo none [] s.toList
+
+/-! ### canonical dumps -/
+
+def fnvChars (s : String) : Nat :=
+  s.toList.foldl (fun h c => ((h ^^^ (c.toNat % 256)) * 16777619) % 4294967296) 2166136261
+
+def showDump (s : String) : String :=
+  if s.length ≤ 3000 then (if s.isEmpty then "-" else s) else s!"L{s.length}:{fnvChars s}"
+
+def b01 (b : Bool) : String := if b then "1" else "0"
+
+def dumpParam (p : Param) : String :=
+  s!"(p {esc p.name} {esc p.type} {b01 p.isVector} {b01 p.isOptional} {p.bit})"
+
+def dumpParams (ps : List Param) : String := "".intercalate (ps.map fun p => " " ++ dumpParam p)
+
+def dumpObj (o : Obj) : String := s!"(o {esc o.name} {o.crc} {esc o.iface}{dumpParams o.params})"
+def dumpMethod (m : Method) : String :=
+  s!"(m {esc m.name} {m.crc} {esc m.respType} {b01 m.respIsList}{dumpParams m.params})"
+
+def strLt (a b : Str) : Bool := (compare (String.ofList a) (String.ofList b)) == .lt
+
+def insertSorted (x : Str × Str) : List (Str × Str) → List (Str × Str)
+  | [] => [x]
+  | y :: ys => if strLt x.1 y.1 then x :: y :: ys else y :: insertSorted x ys
+
+def sortPairs (l : List (Str × Str)) : List (Str × Str) := l.foldr insertSorted []
+
+def dumpStructure (s : Schema) : String :=
+  " ".intercalate (s.objects.map dumpObj ++ s.methods.map dumpMethod)
+
+def dumpComments (s : Schema) : String :=
+  let pc (ps : List Param) := "".intercalate (ps.map fun p => " " ++ esc p.comment)
+  " ".intercalate (
+    s.objects.map (fun o => s!"(c {esc o.comment}{pc o.params})") ++
+    s.methods.map (fun m => s!"(c {esc m.comment}{pc m.params})") ++
+    (sortPairs s.typeComments).map (fun (k, v) => s!"(t {esc k} {esc v})"))
+
+def showPErr : PErr → String
+  | .commentEOF => "err:commentEOF"
+  | .param => "err:param"
+  | .crc => "err:crc"
+  | .vectorType => "err:vectorType"
+  | .loop => "loop"
+
+def showParse (r : Except PErr Schema) : String :=
+  match r with
+  | .error e => showPErr e
+  | .ok s => s!"ok S={showDump (dumpStructure s)} C={showDump (dumpComments s)}"
+
+/-! ### classification dump (c14.classify) -/
+
+def sortStrs (l : List Str) : List Str := (sortPairs (l.map fun s => (s, []))).map (·.1)
+
+def dumpGroup (g : Str × List Str) : String := esc g.1 ++ ":" ++ ",".intercalate (g.2.map esc)
+
+def dumpGroups (gs : List (Str × List Str)) : String :=
+  let keys := sortStrs (gs.map (·.1))
+  let find (k : Str) : List Str := match gs.find? (·.1 = k) with | some g => g.2 | none => []
+  if gs.isEmpty then "-" else ";".intercalate (keys.map fun k => dumpGroup (k, find k))
+
+def showClassify (s : Schema) : String :=
+  let c := classify s.objects
+  s!"enums={dumpGroups c.enums} singles={dumpGroups c.singles} types={dumpGroups c.types}"
+
+/-! ### generated declarations (c14.gen) -/
+
+/-- stand-in for gen/utils.go `goify` where only *equality* of Go names matters: ASCII lower case
+without `_` and `.`. It agrees with `goify` on equality for the names the harness generates (a
+constructor collides with its type only when it is the type's name with a lower-case first letter);
+the agreement is sampled by the correspondence, not proved. -/
+def normName (s : Str) : Str :=
+  (s.filter fun c => c ≠ '_' ∧ c ≠ '.').map fun c =>
+    if 'A' ≤ c ∧ c ≤ 'Z' then Char.ofNat (c.toNat + 32) else c
+
+def showGoType : GoType → String
+  | .prim n => n
+  | .enumT t => "E:" ++ esc t
+  | .ifaceT t => "I:" ++ esc t
+  | .structPtr c => "S:" ++ esc c
+
+def showTyped (t : GoType) (vec : Bool) : String := (if vec then "[]" else "") ++ showGoType t
+
+def showField (f : GoField) : String :=
+  s!" (f {String.ofList (normName f.name)} {showTyped f.type f.vec} {if f.tag.isEmpty then "-" else String.ofList f.tag})"
+
+def showArg (f : GoField) : String := s!" (a {String.ofList (normName f.name)} {showTyped f.type f.vec})"
+
+def showKind : DeclKind → String
+  | .enumConst t => "enum:" ++ esc t
+  | .single => "single"
+  | .ifaceStruct t => "iface:" ++ esc t
+  | .params => "params"
+
+def showDecl (d : Decl) : String :=
+  let fi := match d.flagIndex with | some i => toString i | none => "-"
+  s!"(d {d.crc} {showKind d.kind} {b01 d.objSuffix} {fi}{String.join (d.fields.map showField)})"
+
+def showFn (f : FnDecl) : String :=
+  let args := match f.args with
+    | none => " (a params P)"
+    | some l => String.join (l.map showArg)
+  s!"(fn {f.crc} {showTyped f.result f.resultVec}{args})"
+
+def insertByCrc (x : Nat × String) : List (Nat × String) → List (Nat × String)
+  | [] => [x]
+  | y :: ys => if x.1 < y.1 then x :: y :: ys else y :: insertByCrc x ys
+
+def showEmit (s : Schema) : String :=
+  match emit normName s with
+  | none => "gen=fail:panic"
+  | some (ds, ms) =>
+    let entries := ds.map (fun d => (d.crc, showDecl d)) ++
+      ms.map (fun (d, f) => (d.crc, showDecl d ++ " " ++ showFn f))
+    let sorted := entries.foldr insertByCrc []
+    "gen=ok same=1 build=ok vet=ok D=" ++ showDump (" ".intercalate (sorted.map (·.2)))
+
 def handle : List String → String
+  | "c14.parse" :: _tag :: text :: _expected =>
+    match unesc text with
+    | some src => showParse (parseSchema src)
+    | none => "bad-op"
+  | ["c14.classify", text] =>
+    match unesc text with
+    | some src =>
+      match parseSchema src with
+      | .ok s => showClassify s
+      | .error e => showPErr e
+    | none => "bad-op"
+  | "c14.gen" :: _tag :: text :: _expected =>
+    match unesc text with
+    | some src =>
+      match parseSchema src with
+      | .ok s => showEmit s
+      | .error _ => "gen=fail:parse"
+    | none => "bad-op"
+  -- the two observation-only operations: the model's side is what the property demands
+  | ["c14.shipped", _path] => "parse=ok gen=ok same=1 build=ok vet=ok"
+  | ["c14.sortfact"] => "maprange unknown=- missing-sort=-"
   | _ => "bad-op"
 
 end Driver.C14
